@@ -66,6 +66,7 @@ type History struct {
 	never       map[int]bool          // Prices == 2: edges that are never declared
 	lastPrice   map[int]ref.Directive // last declaration per edge
 	lastAccrual *ref.Accrual
+	leapt       bool
 	descN       int
 }
 
@@ -262,6 +263,11 @@ func (h *History) pickTwo(open []*acct) (*acct, *acct) {
 func (h *History) advance(min int) {
 	t := h.t
 	k := rapid.SampledFrom([]int{0, 0, 0, 1, 1, 2, 7, 20, 31, 45, -1, -1}).Draw(t, "dt")
+	if h.cfg.WideDates && !h.leapt && rapid.IntRange(0, 60).Draw(t, "centuryLeap") == 0 {
+		// once per journal at most: a jump of centuries (dates beyond 2262 overflow int64 nanoseconds)
+		k = rapid.SampledFrom([]int{40000, 100000, 150000}).Draw(t, "centuryLeapDays")
+		h.leapt = true
+	}
 	var nd ref.Day
 	if k == -1 {
 		// jump to the next month end / quarter end / year end
